@@ -21,10 +21,15 @@ def wOkIA : Content :=
     derived := [("d1", fMul "x" "k"), ("d2", fAdd "y" "d1")]
     rxns := [("r1", { rate := fMul "d2" "y", stoich := [("x", .num (-1)), ("y", .num 1)] })] }
 
-/-- F-C07-3: `z` occurs in no reaction -/
+/-- former part of F-C07-3 (repaired): `z` occurs in no reaction, `x` does -/
 def wNoEq : Content :=
   { vars := [("x", .plain 1), ("z", .plain 1)], pars := [("k", .plain 2)]
     rxns := [("r", { rate := fMul "x" "k", stoich := [("x", .num (-1))] })] }
+
+/-- F-C07-3 as it is now: no reaction changes any variable, the generated function returns `()` / `[()]` -/
+def wNoEqAtAll : Content :=
+  { vars := [("x", .plain 1), ("z", .plain 1)], pars := [("k", .plain 2)]
+    derived := [("d", fMul "x" "k")] }
 
 /-- former F-C07-5 witness (repaired): parameter `q` is defined by an initial assignment -/
 def wIAPar : Content :=
